@@ -746,3 +746,52 @@ impl<T> Iterator for RawDrain<'_, T> {
 
 impl<T> ExactSizeIterator for RawDrain<'_, T> {}
 impl<T> FusedIterator for RawDrain<'_, T> {}
+
+/// Read-only view of the internal bookkeeping, for the external verification harness.
+#[cfg(feature = "verif-hooks")]
+#[derive(Clone, Copy, Debug, PartialEq, Eq)]
+pub struct VerifState {
+    /// Number of elements `carry` moves per call, as compiled.
+    pub r: usize,
+    /// `len()` of the main table.
+    pub main_len: usize,
+    /// `capacity()` of the main table.
+    pub main_cap: usize,
+    /// `buckets()` of the main table.
+    pub main_buckets: usize,
+    /// Address of the main table's allocation (identity only).
+    pub main_ptr: usize,
+    /// `(len, capacity, buckets, cached iterator's remaining count)` of the old table, if any.
+    pub old: Option<(usize, usize, usize, usize)>,
+}
+
+#[cfg(feature = "verif-hooks")]
+impl<T> RawTable<T> {
+    pub(crate) fn verif_state(&self) -> VerifState {
+        VerifState {
+            r: R,
+            main_len: self.table.len(),
+            main_cap: self.table.capacity(),
+            main_buckets: self.table.buckets(),
+            main_ptr: self.table.data_end().as_ptr() as usize,
+            old: self.leftovers.as_ref().map(|lo| {
+                (
+                    lo.table.len(),
+                    lo.table.capacity(),
+                    lo.table.buckets(),
+                    lo.items.len(),
+                )
+            }),
+        }
+    }
+
+    /// Calls `f` on every element the cached iterator would still yield, in its order,
+    /// but on at most `limit` of them (the cached count is what the harness checks).
+    pub(crate) fn verif_old_in_cursor_order(&self, limit: usize, mut f: impl FnMut(&T)) {
+        if let Some(ref lo) = self.leftovers {
+            for b in lo.items.clone().take(limit) {
+                f(unsafe { b.as_ref() });
+            }
+        }
+    }
+}
